@@ -126,6 +126,8 @@ def run(ctx, run):
         else:
             run.holds("RF-PURE", key, "%d functions, no store to static storage%s" % (n, " other than the CRC table" if allowed else ""),
                       unit, nontrivial=False)
+    _reset_complete(ctx, run)
+    _frame_gate(ctx, run)
     from .. import sweep
     sweep.run(ctx, run, [IDL, PFC], {}, 15)
 
@@ -553,3 +555,80 @@ def _page_complete_at_header(ctx, run, f):
                           "when the last packets of the previous page are lost the unfinished block is completed with bytes of the "
                           "next page and delivered" % sorted(flds), ex.loc(f, i))
     run.floor("reset on page header in vbi_pfc_demux_feed", n, 1)
+
+
+def _reset_complete(ctx, run):
+    """RF-INIT: every field of a demultiplexer's state that the per-packet code writes is also
+    written by its reset function - what survives vbi_idl_demux_reset() / vbi_pfc_demux_reset()
+    (a pending data-lost flag, a continuity index, a fill level) is reported or used on the first
+    delivery after the reset although it belongs to the stream before it."""
+    P = ctx.prog
+    for unit, rec, reset in (("src/idl_demux.c", "_vbi_idl_demux", "vbi_idl_demux_reset"),
+                             ("src/pfc_demux.c", "_vbi_pfc_demux", "vbi_pfc_demux_reset")):
+        rf = P.need(reset, unit)
+        run.touch(rf)
+        writers = {}
+        for f in P.funcs:
+            if f.file != unit:
+                continue
+            for bid, i in flow.all_events(f):
+                for lhs, var, op, rhs in flow.stores(f, i):
+                    if lhs is None:
+                        continue
+                    l = f.exprs[ex.skip(f, lhs)]
+                    while l["k"] == "idx":
+                        l = f.exprs[ex.skip(f, l["c"][0])]
+                    if l["k"] == "mem" and l.get("in") == rec:
+                        writers.setdefault(l["member"], set()).add(f.name)
+        setup = {n for n in {w for ws in writers.values() for w in ws} if n.endswith(("_init", "_new", "_destroy", "_delete"))}
+        dynamic = {fld for fld, ws in writers.items() if ws - setup - {reset}}
+        if not dynamic:
+            raise AnalysisBroken("%s: no per-packet writer of %s state found" % (unit, rec))
+        run.floor("%s fields written by the per-packet code" % rec, len(dynamic), 3)
+        for fld in sorted(dynamic):
+            key = "RF-INIT:%s:%s" % (reset, fld)
+            if reset in writers[fld]:
+                run.holds("RF-INIT", key, "%s.%s (written by %s) is reset by %s()" % (rec, fld, ", ".join(sorted(writers[fld] - {reset})), reset),
+                          "%s:%d" % (rf.file, rf.line), nontrivial=False)
+            else:
+                run.violation("RF-INIT", key, "%s.%s is written by %s but not by %s(): its value from before the reset (a channel "
+                              "change) is used for the first packets after it - a pending data-lost flag is reported on a delivery "
+                              "that lost nothing" % (rec, fld, ", ".join(sorted(writers[fld] - setup)), reset),
+                              "%s:%d" % (rf.file, rf.line), witness={"field": fld})
+
+
+def _frame_gate(ctx, run):
+    """RF-BITS: a sliced line is Teletext System B when its id has *either* line-range bit
+    (VBI_SLICED_TELETEXT_B_L10_625 | _L25_625 = 3; the raw decoder emits the single-bit ids).
+    Both frame feeders hand a line to their per-packet feed under the mask test `id & 3`; an
+    equality test (or a narrower mask) skips lines the other feeder - and vbi_decode - accept,
+    which breaks the continuity sequence of the selected page/channel."""
+    P = ctx.prog
+    for name, unit, callee in (("vbi_pfc_demux_feed_frame", PFC, "vbi_pfc_demux_feed"),
+                               ("vbi_idl_demux_feed_frame", IDL, "vbi_idl_demux_feed")):
+        f = P.need(name, unit)
+        run.touch(f)
+        calls = [i for _, i in flow.all_events(f) if f.exprs[i]["k"] == "call" and f.exprs[i].get("callee") == callee]
+        if not calls:
+            raise AnalysisBroken("%s no longer calls %s" % (name, callee))
+        for i in calls:
+            ok, seen = False, []
+            for a in atoms.atoms_at(f, i):
+                if not a.L.has("vbi_sliced.id"):
+                    continue
+                seen.append(repr(a))
+                n = f.exprs[ex.skip(f, a.L.node)] if a.L.node is not None else None
+                if a.rel == "!=" and a.R is not None and a.R.const == 0 and n is not None and n["k"] == "bin" and n["op"] == "&":
+                    m = [ex.const(f, c) for c in n["c"]]
+                    m = [x for x in m if x is not None]
+                    if m and (m[0] & 3) == 3:
+                        ok = True
+            key = "RF-BITS:%s:teletext-gate" % name
+            if ok:
+                run.holds("RF-BITS", key, "the per-packet feed is called under `id & mask != 0` with both Teletext B line-range bits "
+                          "in the mask", ex.loc(f, i))
+            else:
+                run.violation("RF-BITS", key, "%s() does not hand every Teletext B line to %s(): the gate on sliced->id is %s, not a "
+                              "mask test covering both line-range bits (0x3) - lines tagged with a single range bit are skipped and "
+                              "the packet continuity of the selected stream breaks" % (name, callee, "; ".join(seen) or "missing"),
+                              ex.loc(f, i))
